@@ -124,6 +124,9 @@ func kfRound(args []KeyBuilderStage) (KeyBuilderStage, error) {
 	if !precisionOk {
 		return stageArgError(ErrConst, 1)
 	}
+	if precision > maxPrecision {
+		return stageArgError(ErrValue, 1)
+	}
 
 	return func(context KeyBuilderContext) string {
 		val, err := strconv.ParseFloat(args[0](context), 64)
